@@ -105,8 +105,12 @@ RECURSIVE SumSeq(_)
 SumSeq(s) == IF s = <<>> THEN 0 ELSE Head(s) + SumSeq(Tail(s))
 RECURSIVE MaxSeq(_)
 MaxSeq(s) == IF s = <<>> THEN 0 ELSE Max(Head(s), MaxSeq(Tail(s)))
-RECURSIVE Cat(_)
-Cat(ss) == IF ss = <<>> THEN <<>> ELSE Head(ss) \o Cat(Tail(ss))
+\* concatenation of a sequence of sequences.  The argument is usually a function expression
+\* [i \in 1..n |-> ...], which TLC evaluates lazily and *re-evaluates at every application*: SubSeq turns it
+\* into a concrete tuple first (each element evaluated once), or nested uses become exponential
+RECURSIVE CatT(_)
+CatT(t) == IF t = <<>> THEN <<>> ELSE Head(t) \o CatT(Tail(t))
+Cat(ss) == CatT(SubSeq(ss, 1, Len(ss)))
 AllSeq(s, P(_)) == \A i \in 1..Len(s) : P(s[i])
 
 ReprAlign(r) ==
